@@ -915,6 +915,12 @@ func C19(c *Ctx) error {
 			default:
 				fd = c19GenBool(fr, name, num)
 			}
+			// one field in three whose ZERO value satisfies its rules also says `ignore = IGNORE_IF_ZERO_VALUE`: the rules
+			// then accept exactly what they accept without the option (they are skipped for the zero value only, which
+			// they accept anyway), so the published constraints must be the same
+			if j%3 == 1 && fd.F.Rules != nil && c19ZeroSatisfies(fd.F) {
+				fd.F.Rules.IgnoreIfZero = true
+			}
 			fields = append(fields, fd)
 		}
 		m := &c19Msg{Fields: fields, Req: c19Request(i, fields)}
@@ -1345,4 +1351,74 @@ func c19Python(res *report.Result, cases []c19PyCase) {
 			res.Count("python:agree")
 		}
 	}
+}
+
+// c19ZeroSatisfies: does the zero value of the field ("" / 0 / empty list / empty map) satisfy every rule on it, and is
+// the field neither required nor of explicit presence? Only then is `ignore = IGNORE_IF_ZERO_VALUE` a no-op.
+func c19ZeroSatisfies(f *ir.Field) bool {
+	r := f.Rules
+	if r == nil || r.Required || f.Card == "optional" || r.NumGroup != "" {
+		return false
+	}
+	z := func(u *uint64) bool { return u == nil || *u == 0 }
+	switch f.Card {
+	case "repeated":
+		return z(r.MinItems)
+	case "map":
+		return z(r.MinPairs)
+	}
+	if f.Kind == "string" {
+		if !z(r.MinLen) || !z(r.Len) || r.Pattern != nil || r.Format != "" {
+			return false
+		}
+		if r.StrConst != nil && *r.StrConst != "" {
+			return false
+		}
+		if len(r.StrIn) > 0 {
+			ok := false
+			for _, x := range r.StrIn {
+				ok = ok || x == ""
+			}
+			return ok
+		}
+		return true
+	}
+	if !c19IsNumeric(f.Kind) {
+		return false
+	}
+	sign := func(s *string) (int, bool) {
+		if s == nil {
+			return 0, false
+		}
+		q := c19Rat(*s)
+		if q == nil {
+			return 0, false
+		}
+		return q.Sign(), true
+	}
+	if sg, ok := sign(r.Gt); r.Gt != nil && (!ok || sg >= 0) {
+		return false
+	}
+	if sg, ok := sign(r.Gte); r.Gte != nil && (!ok || sg > 0) {
+		return false
+	}
+	if sg, ok := sign(r.Lt); r.Lt != nil && (!ok || sg <= 0) {
+		return false
+	}
+	if sg, ok := sign(r.Lte); r.Lte != nil && (!ok || sg < 0) {
+		return false
+	}
+	if sg, ok := sign(r.NumConst); r.NumConst != nil && (!ok || sg != 0) {
+		return false
+	}
+	if len(r.NumIn) > 0 {
+		found := false
+		for i := range r.NumIn {
+			if sg, ok := sign(&r.NumIn[i]); ok && sg == 0 {
+				found = true
+			}
+		}
+		return found
+	}
+	return true
 }
